@@ -74,7 +74,7 @@ class Reply:
         if sec.get("priv_alg") and sec.get("encrypt", True):
             pos = next((i for i, c in enumerate(tree.children or []) if c.name == "scoped-pdu"), None)
             if pos is not None:
-                plain = tree.children[pos].encode()
+                plain = tree.children[pos].encode() + b"\0" * sec.get("pad", 0)
                 cipher = usm.priv_encrypt(sec["priv_alg"], sec["priv_kul"], sec["boots"], sec["time"], sec["salt"], plain)
                 if sec.get("cipher_trim"):
                     cipher = cipher[: max(0, len(cipher) - sec["cipher_trim"])]
@@ -291,6 +291,10 @@ class Agent:
                 self.salt_ctr += 1
                 salt = (self.salt_ctr & 0xFFFFFFFFFFFFFFFF).to_bytes(8, "big")
                 sec.update(priv_alg=user["priv_alg"], priv_kul=user["priv_kul"], salt=salt)
+                # agents may pad the scoped PDU (less than one cipher block)
+                pads = self.cfg.get("resp_pad")
+                if pads:
+                    sec["pad"] = pads[self.salt_ctr % len(pads)] % (8 if user["priv_alg"] == 1 else 16)
                 priv_field = salt
         usm_f = dict(engine_id=self.engine_id, boots=boots, time=time, user=m["usm"]["user"], auth=auth_field, priv=priv_field)
         ctx = self.cfg.get("ctx_engine_id")
